@@ -41,6 +41,7 @@ import datetime
 import math
 import os
 import random
+import sys
 
 from stv import envshim  # noqa: F401
 from stv import gen
@@ -79,7 +80,11 @@ ASSUMPTIONS = [
     "signs swapped): those are the business of C03/C04/C05/C19",
     "both twins go through the same serialisation round trips; a round trip that fails alike in both runs is "
     "counted (roundtrip_failed_in_both) and skipped, one that fails in one run only is a violation",
-    "ZeroShotTransfer (needs xgboost, not installed here) and the quantile-based transfer searcher are not paired",
+    "ZeroShotTransfer is paired with use_surrogates=False only (kind zero_shot: the model-free greedy rank "
+    "selection over offline tables whose configurations are the same in every task); its module imports xgboost, "
+    "which is not installed here: the harness puts an empty stand-in module into sys.modules when the import "
+    "fails (xgboost is only used by use_surrogates=True, which depends on a floating-point model fit and is "
+    "outside the property's quantifier). The quantile-based transfer searcher is not paired",
     "Tuner.best_config is exercised on a real Tuner object constructed around a stub TrialBackend (never run); "
     "whole simulated Tuner runs are not paired here",
 ]
@@ -92,7 +97,7 @@ KINDS = [
     "hyperband_rush_stopping", "hyperband_rush_promotion",
     "sync_hyperband", "sync_geometric_hyperband", "dehb",
     "pbt", "rea", "median_rule", "moasha", "reporting",
-    "rush_scheduler_stopping", "rush_scheduler_promotion", "bounding_box",
+    "rush_scheduler_stopping", "rush_scheduler_promotion", "bounding_box", "zero_shot",
 ]
 HB_TYPES = {
     "hyperband_stopping": "stopping", "hyperband_promotion": "promotion", "hyperband_pasha": "pasha",
@@ -105,7 +110,7 @@ PROMO_TYPES = ("promotion", "pasha", "cost_promotion", "rush_promotion")
 # kinds whose pairs must contain a resume (or warm start) to count as non-trivial
 NEEDS_RESUME = {"hyperband_promotion", "hyperband_pasha", "hyperband_cost_promotion", "hyperband_rush_promotion",
                 "sync_hyperband", "sync_geometric_hyperband", "pbt", "rush_scheduler_promotion"}
-NEEDS_DECISION = set(KINDS) - {"fifo_random", "fifo_grid", "rea", "reporting", "bounding_box"}
+NEEDS_DECISION = set(KINDS) - {"fifo_random", "fifo_grid", "rea", "reporting", "bounding_box", "zero_shot"}
 
 _DEVNULL = open(os.devnull, "w")
 
@@ -143,6 +148,8 @@ def floors(tier):
     per_kind = 30 if tier == "quick" else 520  # of 34 / 608 pairs per kind
     out = {"nontrivial:" + k: per_kind for k in KINDS}
     n_sched = n - n // len(CYCLE)
+    out["zero_shot:best_fidelity_differs_between_configurations"] = 15 if tier == "quick" else 250
+    out["decided:zero_shot_suggestion"] = 150 if tier == "quick" else 2500
     out["pairs_compared_to_the_end"] = int(0.8 * n_sched)  # i.e. excluded_roundoff (+ other early ends) < 20 %
     out["decided:decision"] = 20000 if tier == "quick" else 500000
     out["decided:suggestion"] = 5000 if tier == "quick" else 120000
@@ -151,7 +158,7 @@ def floors(tier):
     out["sync_burst:fewer_valid_than_slots_reached_with_>=2_valid"] = 5 if tier == "quick" else 100
     out["moasha:completions_of_sparse_reporters_before_max_t"] = 50 if tier == "quick" else 1000
     for k in KINDS:
-        if k != "reporting":
+        if k not in ("reporting", "zero_shot"):
             out["pairs_with_roundtrip:" + k] = 10 if tier == "quick" else 180
     out["roundtrips"] = 1000 if tier == "quick" else 18000
     out["roundtrips_with_nonempty_rungs"] = 100 if tier == "quick" else 1800
@@ -1558,10 +1565,105 @@ def run_reporting(spec, o):
     o.sample = {"params": p, "modes_first_run": modes_a, "reports_per_trial": n_rep, "updates": len(emits)}
 
 
+def run_zero_shot(spec, o):
+    """ZeroShotTransfer(use_surrogates=False): greedy average-rank selection over offline tables E with
+    mode 'min' against -E with mode 'max'; the whole suggestion sequence (until None) must be equal."""
+    import types
+
+    import numpy as np
+    import pandas as pd
+
+    try:
+        import xgboost  # noqa: F401
+    except ImportError:
+        sys.modules["xgboost"] = types.ModuleType("xgboost")
+    from syne_tune.optimizer.baselines import ZeroShotTransfer
+    from syne_tune.optimizer.schedulers.transfer_learning import TransferLearningTaskEvaluations
+
+    rng = random.Random(spec["seed"])
+    desc = _transfer_space(rng)
+    space = gen.build_space(desc)
+    n_tasks, n, ns = rng.randint(1, 4), rng.randint(3, 12), rng.randint(1, 3)
+    nf = rng.choice([1, 2, 3, 4, 6])
+    names = rng.choice([["loss"], ["other", "loss"], ["loss", "other"]])
+    sort = rng.random() < 0.6
+    rs = np.random.RandomState(rng.randint(0, 10**6))
+    rows = [{k: (v.sample(random_state=rs) if hasattr(v, "sample") else v) for k, v in space.items()} for _ in range(n)]
+    tables = []
+    for _ in range(n_tasks):
+        a = rs.uniform(0.0, 1.0, size=(n, 1, 1))
+        b = rs.uniform(-0.6, 0.6, size=(n, 1, 1))
+        fid = np.arange(nf, dtype=float).reshape(1, 1, nf) / max(nf - 1, 1)
+        tables.append((a + b * fid + rs.uniform(-0.05, 0.05, size=(n, ns, nf)) - 0.3, rs.uniform(size=(n, ns, nf))))
+
+    def offline(sign):
+        out = {}
+        for t, (ev, other) in enumerate(tables):
+            full = np.zeros((n, ns, nf, len(names)))
+            for j, name in enumerate(names):
+                full[..., j] = sign * ev if name == "loss" else other
+            out[f"task{t}"] = TransferLearningTaskEvaluations(
+                configuration_space=space, hyperparameters=pd.DataFrame(rows), objectives_names=names,
+                objectives_evaluations=full)
+        return out
+
+    seqs = {}
+    for mode, sign in (("min", 1.0), ("max", -1.0)):
+        np.random.seed(spec["seed"] % (2**31))
+        try:
+            with contextlib.redirect_stdout(_DEVNULL):
+                sch = ZeroShotTransfer(config_space=space, transfer_learning_evaluations=offline(sign), metric="loss",
+                                       mode=mode, sort_transfer_learning_evaluations=sort, use_surrogates=False,
+                                       random_seed=spec["seed"] % 1000)
+                seq = []
+                for tid in range(n + 2):
+                    sg = sch.suggest(tid)
+                    seq.append(None if sg is None else _sugg_repr(sg))
+                    if sg is None:
+                        break
+        except Exception as e:  # noqa: BLE001
+            seqs[mode] = ("raised", type(e).__name__, repr(e)[:200])
+            continue
+        seqs[mode] = seq
+    o.count("pairs")
+    o.count("pairs:zero_shot")
+    raised = [m for m in seqs if isinstance(seqs[m], tuple)]
+    if len(raised) == 2 and seqs["min"][1] == seqs["max"][1]:
+        o.count("zero_shot:raised_in_both")
+        o.set_sig(("zero_shot", "raised_in_both", seqs["min"][1]), nontrivial=False)
+        return
+    avg = tables[0][0].mean(axis=1)
+    differs = nf > 1 and len({int(i) for i in np.argmin(avg, axis=1)}) > 1
+    if differs:
+        o.count("zero_shot:best_fidelity_differs_between_configurations")
+    wit = {"kind": "zero_shot", "n_tasks": n_tasks, "n_configs": n, "n_seeds": ns, "n_fidelities": nf, "sort": sort,
+           "objectives": names, "min_on_E": seqs["min"][:6] if not isinstance(seqs["min"], tuple) else seqs["min"],
+           "max_on_minus_E": seqs["max"][:6] if not isinstance(seqs["max"], tuple) else seqs["max"]}
+    if raised:
+        o.violate("suggestions", "zero_shot:raised_in_one_run_only:" + seqs[raised[0]][1], wit)
+        return
+    o.count("decided:zero_shot_suggestion", max(len(seqs["min"]), len(seqs["max"])))
+    o.count("decided:suggestion", max(len(seqs["min"]), len(seqs["max"])))
+    if seqs["min"] != seqs["max"]:
+        k = next(i for i, (x, y) in enumerate(zip(seqs["min"] + [0], seqs["max"] + [0])) if x != y)
+        wit["first_difference_at_suggestion"] = k
+        o.violate("suggestions", "zero_shot:suggestion_sequences_differ" + (":several_fidelities" if nf > 1 else ""), wit)
+        return
+    o.count("pairs_compared_to_the_end")
+    ok = len(seqs["min"]) >= 3
+    if ok:
+        o.count("nontrivial:zero_shot")
+    o.set_sig(("zero_shot", n_tasks, n, nf, sort, differs, tuple(s is None for s in seqs["min"])), nontrivial=ok)
+    o.sample = {"params": {k: v for k, v in wit.items() if k not in ("min_on_E", "max_on_minus_E")},
+                "suggestions": len(seqs["min"])}
+
+
 def run_case(spec):
     o = Obs()
     if spec["kind"] == "reporting":
         run_reporting(spec, o)
+    elif spec["kind"] == "zero_shot":
+        run_zero_shot(spec, o)
     else:
         run_pair(spec, o)
     return o.result()
